@@ -186,7 +186,7 @@ def _override(name, kind, rs):
         return {'sc': mat(kind, rs), 'beta': np.array([0.1, 0.5, 0.2, 0.3]), 'ed': distmat('und', rs),
                 'pred_var': ('ed', 'SPLwei_log', 'SIwei_log'), 'model': 'linear'}
     if name == 'generative_model':
-        mt = {'und': 'matching', 'bin': 'neighbors', 'dir': 'clu-avg', 'wdiag': 'deg-avg', 'signed': 'euclidean', 'int': 'matching'}[kind]
+        mt = {'und': 'matching', 'bin': 'neighbors', 'dir': 'clu-avg', 'wdiag': 'deg-avg', 'signed': 'euclidean', 'int': 'matching'}.get(kind, 'matching')
         A = np.zeros((8, 8))
         A[0, 1] = A[1, 0] = A[2, 3] = A[3, 2] = 1
         if kind == 'int':
@@ -233,7 +233,7 @@ def _override(name, kind, rs):
     if name == 'breadth':
         return {'CIJ': mat(kind, rs), 'source': 0}
     if name == 'clique_communities':
-        return {'A': mat('bin' if kind != 'int' else 'int', rs, dens=0.8), 'cq_thr': 3}
+        return {'A': mat(kind if kind in ('int', 'bool', 'booldiag') else 'bin', rs, dens=0.8), 'cq_thr': 3}
     return 'generic'
 
 
